@@ -52,7 +52,30 @@ def demo(wt, n):
     return None, "no Cargo.toml in demo"
 
 
+def recheck(name):
+    """Re-run the recorded checks on seeded/<name>/patch.diff and refresh meta.json (suite / demo results are kept)."""
+    d = os.path.join(VERIF, "seeded", name)
+    mp = os.path.join(d, "meta.json")
+    with open(mp) as fh:
+        meta = json.load(fh)
+    props = list(meta["what_we_ran"]["checks"].keys()) or [meta["breaks_property"]]
+    res = selftest.run_mutant(os.path.join(d, "patch.diff"), props)
+    for p_, rc, viol, stdout in res:
+        meta["what_we_ran"]["checks"][p_] = {"rc": rc, "violations": [v["key"] for v in viol][:8]}
+        rules = sorted(set(v["key"].split("|")[0] for v in viol))
+        print(f"== {name}: check {p_}: rc={rc} {rules}")
+        if rc not in (0, 1):
+            print(stdout[-1200:])
+    with open(mp, "w") as fh:
+        json.dump(meta, fh, indent=1)
+
+
 def main():
+    if sys.argv[1] == "--recheck":
+        names = sys.argv[2:] or sorted(os.listdir(os.path.join(VERIF, "seeded")))
+        for nm in names:
+            recheck(nm)
+        return 0
     pid, n = sys.argv[1], sys.argv[2]
     props = [pid]
     if "--props" in sys.argv:
